@@ -269,11 +269,41 @@ func c19Version(cfg *world.Config, v *version, acc *pairAcc, st *c19Stats) {
 		// (clauses about the stored bytes - undecodable, counts, missing - are not judged here: a
 		// cache hit legitimately skips decoding; only order and layer mismatches are)
 		if len(clauses) > 0 && (c.kind == "order" || c.kind == "height" || c.kind == "branchfactor") && len(c.store) == 0 && c.remove == "" && c.root.Link != nil && *c.root.Link == v.link && r.Err != nil && r.Panic == nil {
-			cache := env.NewCache(env.CacheBig)
-			warm := v.w.RemoteConfig(stc, false)
-			warm.NodeCache = cache
-			if wt, err := v.root.LoadMast(ctx, warm); err == nil {
-				v.w.ReadContents(wt)
+			for _, how := range []string{"warmed by loading the unperturbed root", "filled by the writer's own MakeRoot"} {
+				cache := env.NewCache(env.CacheBig)
+				warm := v.w.RemoteConfig(stc, false)
+				warm.NodeCache = cache
+				ok := false
+				if how[0] == 'w' {
+					if wt, err := v.root.LoadMast(ctx, warm); err == nil {
+						v.w.ReadContents(wt)
+						ok = true
+					}
+				} else {
+					// the same contents written again through the cache: the nodes enter it from the writer's
+					// flush (never decoded, never checked by a load) under the same names
+					r := guardRes(func() error {
+						wt, err := mast.NewRoot(cfg.CreateOptions()).LoadMast(ctx, warm)
+						if err != nil {
+							return err
+						}
+						for k, vi := range v.c.M {
+							if err := wt.Insert(ctx, cfg.FreshKey(k), cfg.FreshVal(vi)); err != nil {
+								return err
+							}
+						}
+						nr, err := wt.MakeRoot(ctx)
+						if err != nil {
+							return err
+						}
+						ok = nr.Link != nil && *nr.Link == v.link
+						return nil
+					})
+					ok = ok && r.Err == nil && r.Panic == nil
+				}
+				if !ok {
+					continue
+				}
 				rc2 := *rc
 				rc2.NodeCache = cache
 				atomic.AddInt64(&st.cases, 1)
@@ -285,7 +315,7 @@ func c19Version(cfg *world.Config, v *version, acc *pairAcc, st *c19Stats) {
 						sym = "panic-instead-of-error"
 					}
 					acc.add(cfg, "C19", []explore.Finding{{Sig: fmt.Sprintf("C19|%s|%s|%s|top-node-in-shared-cache", c.kind, clauses[0], sym),
-						What: "LoadMast did not reject a root that does not match (" + clauses[0] + ") when the top node was already in the shared node cache", Detail: fmt.Sprintf("clauses %v: %v", clauses, r2)}}, append(desc, "with a node cache warmed by loading the unperturbed root"))
+						What: "LoadMast did not reject a root that does not match (" + clauses[0] + ") when the top node was already in the shared node cache", Detail: fmt.Sprintf("clauses %v: %v", clauses, r2)}}, append(desc, "with a node cache "+how))
 				} else {
 					atomic.AddInt64(&st.rejected, 1)
 				}
